@@ -360,6 +360,23 @@ int apply_low (const char *fun, object_t * ob, int num_arg) {
                */
               return 1;
             }
+          else
+            {
+              /* Defined, but not visible to this caller. Cache the definition, not a "no such function"
+               * entry: visibility is checked again on every hit, and a later driver apply or call_out
+               * of the same name must still find the function. */
+              entry->oprogp = ob->prog;
+              entry->id = progp->id_number;
+              entry->name = ref_string (sfun);
+              entry->index = index;
+              entry->variable_index_offset = vio;
+              entry->function_index_offset = fio;
+              entry->num_arg = fundefp->num_arg;
+              entry->num_local = fundefp->num_local;
+              entry->progp = prog;
+              pop_n_elems (num_arg);
+              return 0;
+            }
         }
       /* We have to mark a function not to be in the object */
       entry->id = progp->id_number;
